@@ -94,6 +94,9 @@ def check(run, prog, tier):
     from . import memorule
     memorule.check(run, prog, "C15-E6", ['quantarhei.qm.propagators.rdmpropagator.ReducedDensityMatrixPropagator', 'quantarhei.qm.propagators.svpropagator.StateVectorPropagator', 'quantarhei.qm.propagators.poppropagator.PopulationPropagator', 'quantarhei.qm.liouvillespace.heom.KTHierarchy', 'quantarhei.qm.liouvillespace.heom.KTHierarchyPropagator', 'quantarhei.qm.liouvillespace.evolutionsuperoperator.EvolutionSuperOperator', 'quantarhei.qm.liouvillespace.redfieldtensor.RedfieldRelaxationTensor', 'quantarhei.qm.liouvillespace.relaxationtensor.RelaxationTensor', 'quantarhei.builders.opensystem.OpenSystem'],
                    "the result then depends on the history of the object, not only on the inputs of the call")
+    run.rule("C15-E8", "what a propagation asks of its relaxation tensor is computed from nothing: no accumulation into storage that "
+                       "outlives the call", minimum=2)
+    rule_E8(run, prog)
     run.rule("C15-E7", "option setters are absolute: what a set* method of a propagator stores is computed from its argument and "
                        "from state the method does not itself overwrite (setting the same option twice gives the same object)", minimum=8)
     rule_E7(run, prog)
@@ -290,6 +293,58 @@ def _scan(prog, E, f, roots):
             if " via " in d:
                 out.append((k, "via", d, f.node))
     return out
+
+
+def rule_E8(run, prog):
+    """'Repeating the call with the same inputs returns the same result whatever was computed with those objects in
+    between': the propagators call methods of the relaxation tensor they were given (initial_term for the non-equilibrium
+    theories).  Such a method may leave a result on the tensor, but it must compute it from nothing: an accumulation
+    (`+=`) into storage that outlives the call - an attribute of the tensor, or a local bound to one - adds the
+    contribution of this propagation to those of all earlier ones, unless the storage is allocated anew earlier in the
+    same method.  All methods of the classes of qm.liouvillespace that the propagators call on self.RelaxationTensor, and
+    the methods of self these call, are examined."""
+    from .. import arrays, memo
+    rid = "C15-E8"
+    called = set()
+    for q in PROPS:
+        cls = prog.cls(q)
+        for f in cls.methods.values():
+            for c in walk_no_nested(f.node):
+                if isinstance(c, ast.Call) and isinstance(c.func, ast.Attribute) and norm(c.func.value) in ("self.RelaxationTensor", "self.relt", "RR"):
+                    called.add(c.func.attr)
+    if not called:
+        raise AnalysisError("C15-E8: the propagators call no method of their relaxation tensor")
+    n = 0
+    seen = set()
+    for cls in prog.all_classes():
+        if not cls.qualname.startswith("quantarhei.qm.liouvillespace.") or ".tests." in cls.qualname:
+            continue
+        methods = memo._class_methods(prog, cls)
+        work = [m_ for m_ in called if m_ in cls.methods]
+        depth = {m_: 0 for m_ in work}
+        while work:
+            m_ = work.pop()
+            f = methods.get(m_)
+            if f is None or (f.qualname in seen):
+                continue
+            seen.add(f.qualname)
+            n += 1
+            prog.consulted.add(f.relpath)
+            acc = arrays.persistent_accumulators(f.node)
+            run.obligation(rid, f.short, not acc, key="computed-from-nothing",
+                           message="%s, which a propagation calls on its relaxation tensor, accumulates with `%s` into %s, storage that "
+                                   "is not allocated anew in the method: the contribution of this propagation is added to those of all "
+                                   "earlier propagations with the same tensor, so a repeated call returns another result"
+                                   % (f.short, norm(acc[0][0])[:60] if acc else "", acc[0][1] if acc else ""),
+                           loc=f.loc(acc[0][0]) if acc else f.loc(f.node))
+            if depth[m_] < 2:
+                for c in walk_no_nested(f.node):
+                    if isinstance(c, ast.Call) and isinstance(c.func, ast.Attribute) and norm(c.func.value) == "self" and c.func.attr in methods:
+                        if c.func.attr not in depth:
+                            depth[c.func.attr] = depth[m_] + 1
+                            work.append(c.func.attr)
+    if n < 2:
+        raise AnalysisError("C15-E8: only %d tensor methods reachable from the propagators found (initial_term, initial_term_nsc confirmed)" % n)
 
 
 def rule_E3(run, prog, E):
